@@ -152,3 +152,22 @@ SPECS['order_apply_combination'] = FunctionSpec(qual='order_apply_combination', 
     ensures=lambda o, n, r: [('merged_view', oac_state(o['order'], r, o['combination'], cm.Len(o['combination'])))],
     locals={'order_copy': GL},
     loops={0: LoopSpec(inv=lambda o, v, k: oac_state(o['order'], v['order_copy'], o['combination'], k))})
+
+
+# ------------------------------------------------------------------------------------------------ BaseCarver._combination_formatter
+# {modal: group[0] for group in combination for modal in group}: every modality of a combination is mapped to the first modality of its group (the dict pandas
+# groups the crosstab by).  Precondition from the enumerators' contracts: groups are non-empty and no modality occurs twice.
+from pyvc.types import TDict
+DVVc = TDict(VAL, VAL); BCF = TObj('BaseCarverF', [('str_nan', VAL)])
+def cf_req(o):
+    Cm = o['combination']; a, b, a2, b2 = Int('a_cf'), Int('b_cf'), Int('a_cg'), Int('b_cg')
+    inr = lambda x, y: And(0 <= x, x < cm.Len(Cm), 0 <= y, y < g.Len(cm.At(Cm, x)))
+    return And(ForAll([a], Implies(And(0 <= a, a < cm.Len(Cm)), g.Len(cm.At(Cm, a)) > 0), patterns=[cm.At(Cm, a)]),
+               ForAll([a, b, a2, b2], Implies(And(inr(a, b), inr(a2, b2), Or(a != a2, b != b2)), g.At(cm.At(Cm, a), b) != g.At(cm.At(Cm, a2), b2)), patterns=[MultiPattern(g.At(cm.At(Cm, a), b), g.At(cm.At(Cm, a2), b2))]))
+def cf_post(o, n, r):
+    Cm = o['combination']; a, b = Int('a_cp'), Int('b_cp'); x = Const('x_cp', Val)
+    inr = And(0 <= a, a < cm.Len(Cm), 0 <= b, b < g.Len(cm.At(Cm, a)))
+    return [('every_modality_mapped_to_the_first_of_its_group', ForAll([a, b], Implies(inr, And(DVVc.has(r, g.At(cm.At(Cm, a), b)), DVVc.get(r, g.At(cm.At(Cm, a), b)) == g.At(cm.At(Cm, a), 0))), patterns=[g.At(cm.At(Cm, a), b)])),
+            ('nothing_else_is_mapped', ForAll([x], Implies(DVVc.has(r, x), Exists([a, b], And(inr, x == g.At(cm.At(Cm, a), b)))), patterns=[DVVc.has(r, x)]))]
+SPECS['BaseCarver._combination_formatter'] = FunctionSpec(qual='BaseCarver._combination_formatter', file=FILE, cls='BaseCarverF', params=[('self', BCF), ('combination', TList(LVAL))], returns=DVVc,
+    requires=cf_req, ensures=cf_post)
